@@ -296,12 +296,14 @@ theorem step_KMono (cfg : Cfg) (hd : cfg.debug = true) (o : Op) (L : Lexer) (h :
   case popPending => exact h.popPendingStat
   case pendingStat => exact h.pendingStat
   case setPending b => exact h.setPendingStat b
-  case nestInc | nestDec | litBegin | litMarkEnd | payClear => exact h.ofToks id rfl
+  case nestInc | nestDec | litBegin | litBeginAtTok | litMarkEnd | payClear => exact h.ofToks id rfl
   case litCut => exact (h.addStringLiteralFromSrc (cfg := cfg) L.lit.lastEnd none).ofToks id rfl
   case litResolve back =>
+    have h' := h.dassert (cfg := cfg) (L.lit.seen || L.lit.start == L.lit.stop)
+      "assertion failed: seen_escape || lit_start_idx == cur_lit_end_idx"
     split
-    · exact h.ofToks id rfl
-    · exact (h.addStringLiteralFromSrc (cfg := cfg) L.lit.lastEnd (some (L.curByte - back))).ofToks id rfl
+    · exact h'.ofToks id rfl
+    · exact (h'.addStringLiteralFromSrc (cfg := cfg) L.lit.lastEnd (some (L.curByte - back))).ofToks id rfl
   case litAddDecoded cs => exact h.ofToks id rfl
   case loopCheck => split <;> first | exact h | exact h.ofToks id rfl
   case emitEofAtCursor => exact (h.lastLineOrAdd (cfg := cfg)).bufAddToken hd _
